@@ -310,11 +310,11 @@ class Term:
             return Model(self, other, Term(*deepcopy(self.components), *deepcopy(other.components)))
         elif isinstance(other, Model):
             products = product([self], other.common_terms)
-            terms = [self] + other.common_terms
             iterms = [
                 Term(*deepcopy(p[0].components), *deepcopy(p[1].components)) for p in products
             ]
-            return Model(*terms) + Model(*iterms)
+            # Model addition drops repeated terms, e.g. "x * (x + y)"
+            return Model(self) + Model(*other.common_terms) + Model(*iterms)
         else:  # pragma: no cover
             return NotImplemented
 
@@ -955,16 +955,16 @@ class Model:
                 if len(components) == 1 and isinstance(components, (int, float)):
                     raise TypeError("Interaction with numeric does not make sense.")
             products = product(self.common_terms, other.common_terms)
-            terms = self.common_terms + other.common_terms
             iterms = [Term(*p[0].components, *p[1].components) for p in products]
-            return Model(*terms) + Model(*iterms)
+            # Model addition drops repeated terms, e.g. "(x + y) * (x + z)"
+            return Model(*self.common_terms) + Model(*other.common_terms) + Model(*iterms)
         elif isinstance(other, Term):
             if len(other.components) == 1 and isinstance(other.components[0].name, (int, float)):
                 raise TypeError("Interaction with numeric does not make sense.")
             products = product(self.common_terms, [other])
-            terms = self.common_terms + [other]
             iterms = [Term(*p[0].components, *p[1].components) for p in products]
-            return Model(*terms) + Model(*iterms)
+            # Model addition drops repeated terms, e.g. "(x + y) * x"
+            return Model(*self.common_terms) + Model(other) + Model(*iterms)
         else:  # pragma: no cover
             return NotImplemented
 
